@@ -304,8 +304,8 @@ pub fn c05_stack_history4() {
 
 #[cfg_attr(kani, kani::proof)]
 #[cfg_attr(kani, kani::unwind(8))]
-pub fn c05_stack_history6__t() {
-    stack_history(6);
+pub fn c05_stack_history5__t() {
+    stack_history(5);
 }
 
 /// PUSHF / POPF / LAHF / SAHF / XLAT
@@ -410,7 +410,7 @@ pub const TABLE: &[(&str, fn())] = &[
     ("c05_push_pop_pair", c05_push_pop_pair),
     ("c05_stack_lifo", c05_stack_lifo),
     ("c05_stack_history4", c05_stack_history4),
-    ("c05_stack_history6__t", c05_stack_history6__t),
+    ("c05_stack_history5__t", c05_stack_history5__t),
     ("c05_singletons", c05_singletons),
     ("c05_twin_reach", c05_twin_reach),
 ];
